@@ -35,3 +35,430 @@ func (t *trigger) Update(round uint64, nonce uint64)
   ensures  unchanged: t.epoch == old(t.epoch) ==> t.currEpochStartRound == old(t.currEpochStartRound) && t.nextEpochStartRound == old(t.nextEpochStartRound) && t.isEpochStart == old(t.isEpochStart)
   assigns  t.currentRound, t.epoch, t.isEpochStart, t.prevEpochStartRound, t.currEpochStartRound, t.nextEpochStartRound
 @*/
+
+// ---- C35: end-of-epoch rewards distribute exactly the computed amount (agent S) ---------------------------------------
+//
+// THE LOCAL TX CACHE. The reward transactions end up in rc.currTxs (an interface, no Go heap effect). The property
+// clauses "no zero or negative value" and "only shard addresses or system delegation contracts" are REQUIRES of AddTx: they
+// become a call-pre obligation at every place where a reward transaction is stored.
+/*@
+// the creator a cache belongs to (logical variable, bound by `requires` of the callers)
+spec fn rwdOwner(c dataRetriever.TransactionCacher) *baseRewardsCreator
+// shard of an address / "is a system delegation contract" as functions of the address CONTENT
+spec fn shardOfAddr(c sharding.Coordinator, a string) uint32
+spec fn isDelegSC(b *baseRewardsCreator, a string) bool
+spec fn destAllowed(b *baseRewardsCreator, a string) bool = shardOfAddr(b.shardCoordinator, a) != core.MetachainShardId || (flagSet(b.flagDelegationSystemSCEnabled) && isDelegSC(b, a))
+// representation fact of the engine's string model (content array is zero outside [0,len)); not a program assumption
+spec fn canonStr(s string) bool = forall j :: (j < 0 || j >= len(s)) ==> s[j] == 0
+spec fn rtxOf(tx data.TransactionHandler) *rewardTx.RewardTx = payload(tx, ptr_rewardTx.RewardTx)
+
+func (c dataRetriever.TransactionCacher) AddTx(txHash []byte, tx data.TransactionHandler)
+  requires reward-tx: typeIs(tx, ptr_rewardTx.RewardTx) && rtxOf(tx) != nil && rtxOf(tx).Value != nil
+  requires positive-value: big(rtxOf(tx).Value) > 0
+  requires allowed-destination: destAllowed(rwdOwner(c), str(rtxOf(tx).RcvAddr))
+  assigns  nothing
+
+func (c dataRetriever.TransactionCacher) Clean()
+  assigns  nothing
+
+func (c sharding.Coordinator) ComputeId(address []byte) (r uint32)
+  ensures  function-of-content: r == shardOfAddr(c, str(address))
+  ensures  a-shard-or-metachain: r < c.NumberOfShards() || r == core.MetachainShardId
+  assigns  nothing
+
+func (c sharding.Coordinator) NumberOfShards() (r uint32)
+  pure
+
+// reads the accounts DB; assumed to be a function of the address content for the duration of one CreateRewardsMiniBlocks
+func (brc *baseRewardsCreator) isSystemDelegationSC(address []byte) (r bool)
+  trusted
+  ensures  function-of-content: r == isDelegSC(brc, str(address))
+  assigns  nothing
+
+// ---- leaves ----
+func (brc *baseRewardsCreator) createProtocolSustainabilityRewardTransaction(metaBlock *block.MetaBlock, computedEconomics *block.Economics) (tx *rewardTx.RewardTx, shardID uint32, err error)
+  requires collaborators: metaBlock != nil && computedEconomics != nil && computedEconomics.RewardsForProtocolSustainability != nil && brc.accumulatedRewards != nil && brc.shardCoordinator != nil
+  requires known-objects: allocated(computedEconomics.RewardsForProtocolSustainability) && allocated(brc.accumulatedRewards)
+  ensures  never-fails: err == nil
+  ensures  fresh-tx: tx != nil && fresh(tx) && tx.Value != nil && fresh(tx.Value)
+  ensures  exact-value: big(tx.Value) == old(big(computedEconomics.RewardsForProtocolSustainability))
+  ensures  receiver: tx.RcvAddr == brc.protocolSustainabilityAddress
+  ensures  shard: shardID == shardOfAddr(brc.shardCoordinator, str(brc.protocolSustainabilityAddress))
+  ensures  accumulated: big(brc.accumulatedRewards) == old(big(brc.accumulatedRewards)) + big(tx.Value)
+  assigns  big(brc.accumulatedRewards)
+
+func (brc *baseRewardsCreator) createRewardFromRwdInfo(rwdInfo *rewardInfoData, metaBlock *block.MetaBlock) (tx *rewardTx.RewardTx, h []byte, err error)
+  requires entry-not-nil: rwdInfo != nil
+  requires collaborators: metaBlock != nil && (rwdInfo != nil ==> rwdInfo.accumulatedFees != nil && rwdInfo.rewardsFromProtocol != nil)
+  requires known-objects: rwdInfo != nil ==> allocated(rwdInfo.accumulatedFees) && allocated(rwdInfo.rewardsFromProtocol)
+  ensures  fresh-tx: err == nil ==> tx != nil && fresh(tx) && tx.Value != nil && fresh(tx.Value)
+  ensures  exact-value: err == nil ==> big(tx.Value) == big(rwdInfo.accumulatedFees) + big(rwdInfo.rewardsFromProtocol)
+  ensures  receiver: err == nil ==> str(tx.RcvAddr) == rwdInfo.address && allocated(tx.RcvAddr)
+  ensures  nothing-on-error: err != nil ==> tx == nil
+  assigns  nothing
+
+// ---- the protocol sustainability reward absorbs the dust ----
+spec fn adjustReady(b *baseRewardsCreator, tx *rewardTx.RewardTx, dust *big.Int) bool = b != nil && tx != nil && tx.Value != nil && dust != nil && b.protocolSustainabilityValue != nil && allocated(tx.Value) && allocated(dust) && allocated(b.protocolSustainabilityValue) && tx.Value != dust && b.protocolSustainabilityValue != tx.Value && b.protocolSustainabilityValue != dust
+
+// version 2: exact code semantics. A negative reward is zeroed; NEGATIVE DUST IS DROPPED (only logged).
+func (rc *rewardsCreatorV2) adjustProtocolSustainabilityRewards(protocolSustainabilityRwdTx *rewardTx.RewardTx, dustRewards *big.Int)
+  requires collaborators: adjustReady(rc.baseRewardsCreator, protocolSustainabilityRwdTx, dustRewards)
+  ensures  never-negative: big(protocolSustainabilityRwdTx.Value) >= 0
+  ensures  clamp-then-add: old(big(dustRewards)) >= 0 ==> big(protocolSustainabilityRwdTx.Value) == max(old(big(protocolSustainabilityRwdTx.Value)), 0) + old(big(dustRewards))
+  ensures  negative-dust-dropped: old(big(dustRewards)) < 0 ==> big(protocolSustainabilityRwdTx.Value) == max(old(big(protocolSustainabilityRwdTx.Value)), 0)
+  ensures  published: old(big(dustRewards)) >= 0 ==> big(rc.baseRewardsCreator.protocolSustainabilityValue) == big(protocolSustainabilityRwdTx.Value)
+  ensures  dust-untouched: big(dustRewards) == old(big(dustRewards))
+  assigns  big(protocolSustainabilityRwdTx.Value), big(rc.baseRewardsCreator.protocolSustainabilityValue)
+
+// version 1: the (possibly negative) difference is always added; the result may be negative.
+func (rc *rewardsCreator) adjustProtocolSustainabilityRewards(protocolSustainabilityRwdTx *rewardTx.RewardTx, dustRewards *big.Int)
+  requires collaborators: adjustReady(rc.baseRewardsCreator, protocolSustainabilityRwdTx, dustRewards)
+  ensures  clamp-then-add: big(protocolSustainabilityRwdTx.Value) == max(old(big(protocolSustainabilityRwdTx.Value)), 0) + old(big(dustRewards))
+  ensures  published: big(rc.baseRewardsCreator.protocolSustainabilityValue) == big(protocolSustainabilityRwdTx.Value)
+  ensures  dust-untouched: big(dustRewards) == old(big(dustRewards))
+  assigns  big(protocolSustainabilityRwdTx.Value), big(rc.baseRewardsCreator.protocolSustainabilityValue)
+
+// The protocol reward is stored UNCONDITIONALLY: the call-pre `positive-value` of AddTx is expected to fail here for a
+// zero value (RewardsForProtocolSustainability == 0 and no dust) -- property clause "no reward transaction has a zero value".
+func (brc *baseRewardsCreator) addProtocolRewardToMiniBlocks(protocolSustainabilityRwdTx *rewardTx.RewardTx, miniBlocks block.MiniBlockSlice, protocolSustainabilityShardId uint32) (err error)
+  requires collaborators: protocolSustainabilityRwdTx != nil && protocolSustainabilityRwdTx.Value != nil && brc.currTxs != nil && brc.protocolSustainabilityValue != nil && allocated(protocolSustainabilityRwdTx.Value) && allocated(brc.protocolSustainabilityValue)
+  requires never-negative: big(protocolSustainabilityRwdTx.Value) >= 0
+  requires owner: rwdOwner(brc.currTxs) == brc
+  requires slot: protocolSustainabilityShardId < len(miniBlocks) && miniBlocks[protocolSustainabilityShardId] != nil
+  requires protocol-address-in-a-shard: protocolSustainabilityRwdTx.RcvAddr == brc.protocolSustainabilityAddress && shardOfAddr(brc.shardCoordinator, str(brc.protocolSustainabilityAddress)) != core.MetachainShardId
+  ensures  published: err == nil ==> big(brc.protocolSustainabilityValue) == big(protocolSustainabilityRwdTx.Value)
+  ensures  value-kept: big(protocolSustainabilityRwdTx.Value) == old(big(protocolSustainabilityRwdTx.Value))
+  ensures  listed: err == nil ==> len(miniBlocks[protocolSustainabilityShardId].TxHashes) == old(len(miniBlocks[protocolSustainabilityShardId].TxHashes)) + 1
+  assigns  miniBlocks[protocolSustainabilityShardId].TxHashes, elems(miniBlocks[protocolSustainabilityShardId].TxHashes), big(brc.protocolSustainabilityValue)
+
+// protocol reward == RewardsForProtocolSustainability + dust, for non-negative inputs (proved)
+lemma protocol-reward-absorbs-dust
+  vars rc *rewardsCreatorV2, mb *block.MetaBlock, ec *block.Economics, dust *big.Int, p0 int, d0 int
+  hyp  rc != nil && rc.baseRewardsCreator != nil && mb != nil && ec != nil && ec.RewardsForProtocolSustainability != nil && rc.baseRewardsCreator.accumulatedRewards != nil && rc.baseRewardsCreator.shardCoordinator != nil
+  hyp  allocated(ec.RewardsForProtocolSustainability) && allocated(rc.baseRewardsCreator.accumulatedRewards) && rc.baseRewardsCreator.protocolSustainabilityValue != nil && allocated(rc.baseRewardsCreator.protocolSustainabilityValue) && dust != nil && allocated(dust) && dust != rc.baseRewardsCreator.protocolSustainabilityValue && dust != rc.baseRewardsCreator.accumulatedRewards
+  hyp  p0 == big(ec.RewardsForProtocolSustainability) && d0 == big(dust) && p0 >= 0 && d0 >= 0
+  call tx, sh, err = rc.baseRewardsCreator.createProtocolSustainabilityRewardTransaction(mb, ec)
+  call _ = rc.adjustProtocolSustainabilityRewards(tx, dust)
+  concl exact: big(tx.Value) == p0 + d0
+  concl published: big(rc.baseRewardsCreator.protocolSustainabilityValue) == p0 + d0
+
+// EXPECTED TO FAIL: the same without "dust >= 0" -- negative dust (more handed to validators than computed) is not
+// taken from the protocol reward, so the created total exceeds the computed total by -dust.
+lemma protocol-reward-absorbs-any-dust
+  vars rc *rewardsCreatorV2, tx *rewardTx.RewardTx, dust *big.Int, p0 int, d0 int
+  hyp  rc != nil && adjustReady(rc.baseRewardsCreator, tx, dust)
+  hyp  p0 == big(tx.Value) && d0 == big(dust) && p0 >= 0 && p0 + d0 >= 0
+  call _ = rc.adjustProtocolSustainabilityRewards(tx, dust)
+  concl exact: big(tx.Value) == p0 + d0
+@*/
+
+// ---- validator rewards: one transaction per reward address, only positive values, only allowed destinations ----
+/*@
+spec fn nodeOK(n *nodeRewardsData) bool = n != nil && n.valInfo != nil && n.fullRewards != nil && n.valInfo.AccumulatedFees != nil && allocated(n.fullRewards) && allocated(n.valInfo.AccumulatedFees) && big(n.fullRewards) >= 0 && big(n.valInfo.AccumulatedFees) >= 0
+spec fn nodesOK(m map[uint32][]*nodeRewardsData) bool = forall s uint32, j int :: has(m, s) && 0 <= j && j < len(m[s]) ==> nodeOK(m[s][j])
+spec fn infoOK(p *rewardInfoData) bool = p.accumulatedFees != nil && p.rewardsFromProtocol != nil && allocated(p.accumulatedFees) && allocated(p.rewardsFromProtocol)
+// every rewardInfoData object of the heap was built by computeValidatorInfoPerRewardAddress (both big.Int fields set). That
+// the map ENTRIES are not nil would need a quantifier over string keys (solvers answer unknown): see entry-not-nil.
+spec fn allInfosOK() bool = forall p *rewardInfoData :: p != nil ==> infoOK(p)
+
+func (e epochStart.EpochEconomicsDataProvider) LeaderFees() (r *big.Int)
+  ensures  value: r != nil && allocated(r)
+  assigns  nothing
+
+// TRUSTED for now (string-keyed map built in a nested map/slice loop).
+func (rc *rewardsCreatorV2) computeValidatorInfoPerRewardAddress(nodesRewardInfo map[uint32][]*nodeRewardsData) (r map[string]*rewardInfoData, dust *big.Int)
+  trusted
+  requires collaborators: rc.economicsDataProvider != nil && nodesOK(nodesRewardInfo)
+  ensures  type-invariant: allInfosOK()
+  ensures  dust: dust != nil && fresh(dust) && big(dust) >= 0
+  assigns  nothing
+
+func (rc *rewardsCreatorV2) addValidatorRewardsToMiniBlocks(metaBlock *block.MetaBlock, miniBlocks block.MiniBlockSlice, nodesRewardInfo map[uint32][]*nodeRewardsData) (dust *big.Int, err error)
+  requires collaborators: rc.baseRewardsCreator != nil && metaBlock != nil && rc.baseRewardsCreator.currTxs != nil && rc.baseRewardsCreator.shardCoordinator != nil && rc.baseRewardsCreator.accumulatedRewards != nil && allocated(rc.baseRewardsCreator.accumulatedRewards) && rc.economicsDataProvider != nil
+  requires owner: rwdOwner(rc.baseRewardsCreator.currTxs) == rc.baseRewardsCreator
+  requires global-zero: zero != nil && big(zero) == 0 && allocated(zero) && zero != rc.baseRewardsCreator.accumulatedRewards
+  requires one-miniblock-per-shard: len(miniBlocks) == rc.baseRewardsCreator.shardCoordinator.NumberOfShards() + 1 && (forall i :: 0 <= i && i < len(miniBlocks) ==> miniBlocks[i] != nil)
+  requires nodes: nodesOK(nodesRewardInfo)
+  ensures  dust-non-negative: err == nil ==> dust != nil && fresh(dust) && big(dust) >= 0
+  assigns  big(rc.baseRewardsCreator.accumulatedRewards), allof(miniBlocks[0].TxHashes), allelems(miniBlocks[0].TxHashes)
+
+loop 1
+  invariant entries: allInfosOK()
+  invariant dust: accumulatedDust != nil && fresh(accumulatedDust) && big(accumulatedDust) >= 0 && accumulatedDust != zero && accumulatedDust != rc.baseRewardsCreator.accumulatedRewards
+  invariant zero: big(zero) == 0
+@*/
+
+// ---- per-node amounts (every node of every shard list: map range with the visited() ghost + exhaustion) ----
+/*@
+// the shard list a node record sits in (logical function, bound by nodesPlaced: lists of different shards share no record)
+spec fn nodeShard(n *nodeRewardsData) uint32
+spec fn nodesPlaced(m map[uint32][]*nodeRewardsData) bool = forall s uint32, j int :: has(m, s) && 0 <= j && j < len(m[s]) ==> m[s][j] != nil && m[s][j].valInfo != nil && nodeShard(m[s][j]) == s
+spec fn baseOf(rc *rewardsCreatorV2, n *nodeRewardsData) int = big(rc.baseRewardsCreator.mapBaseRewardsPerBlockPerValidator[nodeShard(n)]) * n.valInfo.NumSelectedInSuccessBlocks
+spec fn baseDone(rc *rewardsCreatorV2, n *nodeRewardsData, acc *big.Int) bool = n.baseReward != nil && n.baseReward != acc && fresh(n.baseReward) && big(n.baseReward) == baseOf(rc, n) && (big(rc.baseRewardsCreator.mapBaseRewardsPerBlockPerValidator[nodeShard(n)]) >= 0 ==> big(n.baseReward) >= 0)
+
+// base reward of a node == (reward per block per validator of its shard) * (blocks it was selected in), for EVERY node
+func (rc *rewardsCreatorV2) computeBaseRewardsPerNode(nodesRewardInfo map[uint32][]*nodeRewardsData, baseRewards *big.Int) (r *big.Int)
+  requires collaborators: rc.baseRewardsCreator != nil && baseRewards != nil && allocated(baseRewards)
+  requires nodes: nodesPlaced(nodesRewardInfo)
+  requires rate-per-shard: forall s uint32 :: has(nodesRewardInfo, s) ==> has(rc.baseRewardsCreator.mapBaseRewardsPerBlockPerValidator, s) && rc.baseRewardsCreator.mapBaseRewardsPerBlockPerValidator[s] != nil && allocated(rc.baseRewardsCreator.mapBaseRewardsPerBlockPerValidator[s])
+  ensures  per-node: forall s uint32, j int :: has(nodesRewardInfo, s) && 0 <= j && j < len(nodesRewardInfo[s]) ==> nodesRewardInfo[s][j].baseReward != nil && big(nodesRewardInfo[s][j].baseReward) == baseOf(rc, nodesRewardInfo[s][j])
+  ensures  sign: forall s uint32, j int :: has(nodesRewardInfo, s) && 0 <= j && j < len(nodesRewardInfo[s]) && big(rc.baseRewardsCreator.mapBaseRewardsPerBlockPerValidator[s]) >= 0 ==> big(nodesRewardInfo[s][j].baseReward) >= 0
+  ensures  rates-kept: forall s uint32 :: has(nodesRewardInfo, s) ==> big(rc.baseRewardsCreator.mapBaseRewardsPerBlockPerValidator[s]) == old(big(rc.baseRewardsCreator.mapBaseRewardsPerBlockPerValidator[s]))
+  ensures  result: r != nil && fresh(r)
+  ensures  known-objects: forall s uint32, j int :: has(nodesRewardInfo, s) && 0 <= j && j < len(nodesRewardInfo[s]) ==> fresh(nodesRewardInfo[s][j].baseReward)
+  assigns  allof(nodesRewardInfo[0][0].baseReward)
+
+loop 1
+  invariant acc: accumulatedRewards != nil && fresh(accumulatedRewards)
+  invariant rates: forall s uint32 :: has(nodesRewardInfo, s) ==> big(rc.baseRewardsCreator.mapBaseRewardsPerBlockPerValidator[s]) == old(big(rc.baseRewardsCreator.mapBaseRewardsPerBlockPerValidator[s]))
+  invariant done: forall s uint32, j int :: visited(s, 1) && has(nodesRewardInfo, s) && 0 <= j && j < len(nodesRewardInfo[s]) ==> baseDone(rc, nodesRewardInfo[s][j], accumulatedRewards)
+
+loop 2
+  invariant index: -1 <= rangeindex && rangeindex < len(nodeRewardsInfoList)
+  invariant current: has(nodesRewardInfo, shardID) && nodeRewardsInfoList == nodesRewardInfo[shardID] && visited(shardID, 1)
+  invariant acc: accumulatedRewards != nil && fresh(accumulatedRewards)
+  invariant rates: forall s uint32 :: has(nodesRewardInfo, s) ==> big(rc.baseRewardsCreator.mapBaseRewardsPerBlockPerValidator[s]) == old(big(rc.baseRewardsCreator.mapBaseRewardsPerBlockPerValidator[s]))
+  invariant done: forall s uint32, j int :: visited(s, 1) && s != shardID && has(nodesRewardInfo, s) && 0 <= j && j < len(nodesRewardInfo[s]) ==> baseDone(rc, nodesRewardInfo[s][j], accumulatedRewards)
+  invariant this-shard: forall j :: 0 <= j && j <= rangeindex ==> baseDone(rc, nodeRewardsInfoList[j], accumulatedRewards)
+
+// full reward of a node == base + top-up, for EVERY node
+spec fn partsOK(n *nodeRewardsData) bool = n != nil && n.baseReward != nil && n.topUpReward != nil && allocated(n.baseReward) && allocated(n.topUpReward)
+spec fn fullDone(n *nodeRewardsData) bool = n.fullRewards != nil && allocated(n.fullRewards) && big(n.fullRewards) == big(n.baseReward) + big(n.topUpReward)
+
+func aggregateBaseAndTopUpRewardsPerNode(nodesRewardInfo map[uint32][]*nodeRewardsData)
+  requires nodes: forall s uint32, j int :: has(nodesRewardInfo, s) && 0 <= j && j < len(nodesRewardInfo[s]) ==> partsOK(nodesRewardInfo[s][j])
+  ensures  per-node: forall s uint32, j int :: has(nodesRewardInfo, s) && 0 <= j && j < len(nodesRewardInfo[s]) ==> fullDone(nodesRewardInfo[s][j])
+  ensures  parts-kept: forall s uint32, j int :: has(nodesRewardInfo, s) && 0 <= j && j < len(nodesRewardInfo[s]) ==> nodesRewardInfo[s][j].baseReward == old(nodesRewardInfo[s][j].baseReward) && nodesRewardInfo[s][j].topUpReward == old(nodesRewardInfo[s][j].topUpReward) && big(nodesRewardInfo[s][j].baseReward) == old(big(nodesRewardInfo[s][j].baseReward)) && big(nodesRewardInfo[s][j].topUpReward) == old(big(nodesRewardInfo[s][j].topUpReward))
+  assigns  allof(nodesRewardInfo[0][0].fullRewards)
+
+loop 1
+  invariant parts: forall s uint32, j int :: has(nodesRewardInfo, s) && 0 <= j && j < len(nodesRewardInfo[s]) ==> partsOK(nodesRewardInfo[s][j]) && big(nodesRewardInfo[s][j].baseReward) == old(big(nodesRewardInfo[s][j].baseReward)) && big(nodesRewardInfo[s][j].topUpReward) == old(big(nodesRewardInfo[s][j].topUpReward))
+  invariant done: forall s uint32, j int :: visited(s, 1) && has(nodesRewardInfo, s) && 0 <= j && j < len(nodesRewardInfo[s]) ==> fullDone(nodesRewardInfo[s][j])
+
+loop 2
+  invariant index: -1 <= rangeindex && rangeindex < len(nodeInfoList)
+  invariant parts: forall s uint32, j int :: has(nodesRewardInfo, s) && 0 <= j && j < len(nodesRewardInfo[s]) ==> partsOK(nodesRewardInfo[s][j]) && big(nodesRewardInfo[s][j].baseReward) == old(big(nodesRewardInfo[s][j].baseReward)) && big(nodesRewardInfo[s][j].topUpReward) == old(big(nodesRewardInfo[s][j].topUpReward))
+  invariant done: forall s uint32, j int :: visited(s, 1) && has(nodesRewardInfo, s) && 0 <= j && j < len(nodesRewardInfo[s]) && nodesRewardInfo[s] != nodeInfoList ==> fullDone(nodesRewardInfo[s][j])
+  invariant this-shard: forall j :: 0 <= j && j <= rangeindex ==> fullDone(nodeInfoList[j])
+@*/
+
+// ---- shares: floor divisions with a proved non-zero divisor ----
+/*@
+// q is the floor of a/b (b > 0), stated without division
+spec fn isFloorDiv(q int, a int, b int) bool = q * b <= a && a < (q + 1) * b
+
+func computeNodePowerInShard(nodeInfo *state.ValidatorInfo, nodeTopUp *big.Int) (r *big.Int)
+  requires collaborators: nodeInfo != nil && nodeTopUp != nil && allocated(nodeTopUp)
+  ensures  power: r != nil && fresh(r) && big(r) == ((nodeInfo.LeaderSuccess == 0 && nodeInfo.ValidatorSuccess == 0) ? 0 : nodeInfo.NumSelectedInSuccessBlocks * big(nodeTopUp))
+  assigns  nothing
+
+spec fn powersKept(shardPower map[uint32]*big.Int) bool = forall s uint32 :: (has(shardPower, s) <==> old(has(shardPower, s))) && (has(shardPower, s) ==> shardPower[s] == old(shardPower[s]) && big(shardPower[s]) == old(big(shardPower[s])))
+
+// top-up reward of a shard == floor(shardPower * topUpRewards / totalPower); every shard of shardPower gets an entry
+func computeRewardsForPowerPerShard(shardPower map[uint32]*big.Int, totalPower *big.Int, topUpRewards *big.Int) (r map[uint32]*big.Int)
+  requires collaborators: totalPower != nil && topUpRewards != nil && allocated(totalPower) && allocated(topUpRewards)
+  requires global-zero: zero != nil && big(zero) == 0 && allocated(zero)
+  requires powers: forall s uint32 :: has(shardPower, s) ==> shardPower[s] != nil && allocated(shardPower[s]) && big(shardPower[s]) >= 0
+  requires non-negative-total: big(topUpRewards) >= 0
+  ensures  one-entry-per-shard: forall s uint32 :: has(shardPower, s) ==> has(r, s) && r[s] != nil
+  ensures  nothing-without-power: big(totalPower) <= 0 ==> (forall s uint32 :: has(shardPower, s) ==> big(r[s]) == 0)
+  ensures  share: big(totalPower) > 0 ==> (forall s uint32 :: has(shardPower, s) ==> isFloorDiv(big(r[s]), big(shardPower[s]) * big(topUpRewards), big(totalPower)))
+  assigns  nothing
+
+loop 1
+  invariant separate: rewardsTopUpPerShard != shardPower && fresh(rewardsTopUpPerShard)
+  invariant kept: powersKept(shardPower) && big(totalPower) == old(big(totalPower)) && big(topUpRewards) == old(big(topUpRewards)) && big(zero) == 0
+  invariant zeroed: forall s uint32 :: has(rewardsTopUpPerShard, s) ==> rewardsTopUpPerShard[s] != nil && fresh(rewardsTopUpPerShard[s]) && big(rewardsTopUpPerShard[s]) == 0
+  invariant entered: forall s uint32 :: visited(s, 1) ==> has(rewardsTopUpPerShard, s)
+
+loop 2
+  invariant separate: rewardsTopUpPerShard != shardPower && fresh(rewardsTopUpPerShard)
+  invariant kept: powersKept(shardPower) && big(totalPower) == old(big(totalPower)) && big(topUpRewards) == old(big(topUpRewards)) && big(zero) == 0
+  invariant entries: forall s uint32 :: has(shardPower, s) ==> has(rewardsTopUpPerShard, s)
+  invariant fresh-values: forall s uint32 :: has(rewardsTopUpPerShard, s) ==> rewardsTopUpPerShard[s] != nil && fresh(rewardsTopUpPerShard[s])
+  invariant shared: forall s uint32 :: visited(s, 2) && has(shardPower, s) ==> isFloorDiv(big(rewardsTopUpPerShard[s]), big(shardPower[s]) * big(topUpRewards), big(totalPower))
+
+// ---- top-up reward per node: floor(nodePower * shardReward / shardPower), divisor proved non-zero, never negative ----
+spec fn stakesOK(m map[uint32][]*nodeRewardsData) bool = forall s uint32, j int :: has(m, s) && 0 <= j && j < len(m[s]) ==> m[s][j].topUpStake != nil && allocated(m[s][j].topUpStake) && big(m[s][j].topUpStake) >= 0
+spec fn powersOK(m map[uint32][]*nodeRewardsData) bool = forall s uint32, j int :: has(m, s) && 0 <= j && j < len(m[s]) ==> m[s][j].powerInShard != nil && allocated(m[s][j].powerInShard) && big(m[s][j].powerInShard) >= 0
+spec fn topUpsOK(m map[uint32][]*nodeRewardsData) bool = forall s uint32, j int :: has(m, s) && 0 <= j && j < len(m[s]) ==> m[s][j].topUpReward != nil && allocated(m[s][j].topUpReward) && big(m[s][j].topUpReward) >= 0
+// a node's top-up amount object is either the one it had on entry or was allocated by this call
+spec fn topUpsFrom(m map[uint32][]*nodeRewardsData) bool = forall s uint32, j int :: has(m, s) && 0 <= j && j < len(m[s]) ==> fresh(m[s][j].topUpReward) || m[s][j].topUpReward == old(m[s][j].topUpReward)
+spec fn perShardOK(m map[uint32][]*nodeRewardsData, t map[uint32]*big.Int) bool = forall s uint32 :: has(m, s) ==> has(t, s) && t[s] != nil && allocated(t[s]) && big(t[s]) >= 0
+
+// TRUSTED (interface call + err.Error() in a nested loop). Assumption: the staking provider's top-up values are not negative.
+func (rc *rewardsCreatorV2) getTopUpForAllEligibleNodes(nodesRewardInfo map[uint32][]*nodeRewardsData)
+  trusted
+  requires nodes: nodesPlaced(nodesRewardInfo)
+  ensures  stakes: stakesOK(nodesRewardInfo)
+  assigns  allof(nodesRewardInfo[0][0].topUpStake)
+
+// TRUSTED composition of computeTopUpPerShard / computeShardsPower / computeRewardsForPowerPerShard. Assumption: the
+// economics' blocks-per-shard map and the validator lists cover the same shards (a counted shard without a validator list
+// makes computeShardsPower call Mul with a nil *big.Int: panic, seen with an empty validatorsInfo map).
+func (rc *rewardsCreatorV2) computeTopUpRewardsPerShard(topUpRewards *big.Int, nodesRewardInfo map[uint32][]*nodeRewardsData) (r map[uint32]*big.Int)
+  trusted
+  requires collaborators: topUpRewards != nil && big(topUpRewards) >= 0 && stakesOK(nodesRewardInfo)
+  ensures  per-shard: perShardOK(nodesRewardInfo, r) && fresh(r)
+  assigns  nothing
+
+func computeNodesPowerInShard(nodesRewardInfo map[uint32][]*nodeRewardsData) (r map[uint32]*big.Int)
+  requires nodes: nodesPlaced(nodesRewardInfo) && stakesOK(nodesRewardInfo)
+  ensures  per-shard: perShardOK(nodesRewardInfo, r) && fresh(r)
+  ensures  per-node: powersOK(nodesRewardInfo)
+  ensures  stakes-kept: stakesOK(nodesRewardInfo)
+  ensures  fresh-totals: forall s uint32 :: has(r, s) ==> fresh(r[s])
+  assigns  allof(nodesRewardInfo[0][0].powerInShard)
+
+loop 1
+  invariant kept: stakesOK(nodesRewardInfo) && fresh(totalShardNodesPower)
+  invariant totals: forall s uint32 :: has(totalShardNodesPower, s) ==> totalShardNodesPower[s] != nil && fresh(totalShardNodesPower[s]) && big(totalShardNodesPower[s]) >= 0
+  invariant entered: forall s uint32 :: visited(s, 1) ==> has(totalShardNodesPower, s)
+  invariant done: forall s uint32, j int :: visited(s, 1) && has(nodesRewardInfo, s) && 0 <= j && j < len(nodesRewardInfo[s]) ==> nodesRewardInfo[s][j].powerInShard != nil && allocated(nodesRewardInfo[s][j].powerInShard) && big(nodesRewardInfo[s][j].powerInShard) >= 0
+
+loop 2
+  invariant index: -1 <= rangeindex && rangeindex < len(nodeInfoList)
+  invariant current: has(nodesRewardInfo, shardID) && nodeInfoList == nodesRewardInfo[shardID] && has(totalShardNodesPower, shardID)
+  invariant kept: stakesOK(nodesRewardInfo) && fresh(totalShardNodesPower)
+  invariant totals: forall s uint32 :: has(totalShardNodesPower, s) ==> totalShardNodesPower[s] != nil && fresh(totalShardNodesPower[s]) && big(totalShardNodesPower[s]) >= 0
+  invariant entered: forall s uint32 :: visited(s, 1) ==> has(totalShardNodesPower, s)
+  invariant done: forall s uint32, j int :: visited(s, 1) && s != shardID && has(nodesRewardInfo, s) && 0 <= j && j < len(nodesRewardInfo[s]) ==> nodesRewardInfo[s][j].powerInShard != nil && allocated(nodesRewardInfo[s][j].powerInShard) && big(nodesRewardInfo[s][j].powerInShard) >= 0
+  invariant this-shard: forall j :: 0 <= j && j <= rangeindex ==> nodeInfoList[j].powerInShard != nil && allocated(nodeInfoList[j].powerInShard) && big(nodeInfoList[j].powerInShard) >= 0
+
+func (rc *rewardsCreatorV2) computeTopUpRewardsPerNode(nodesRewardInfo map[uint32][]*nodeRewardsData, topUpRewards *big.Int) (r *big.Int)
+  requires collaborators: topUpRewards != nil && allocated(topUpRewards) && big(topUpRewards) >= 0
+  requires global-zero: zero != nil && big(zero) == 0 && allocated(zero)
+  requires nodes: nodesPlaced(nodesRewardInfo) && topUpsOK(nodesRewardInfo)
+  ensures  per-node: topUpsOK(nodesRewardInfo)
+  ensures  provenance: topUpsFrom(nodesRewardInfo)
+  ensures  result: r != nil && fresh(r)
+  assigns  allof(nodesRewardInfo[0][0].topUpStake), allof(nodesRewardInfo[0][0].powerInShard), allof(nodesRewardInfo[0][0].topUpReward)
+
+loop 1
+  invariant acc: accumulatedTopUpRewards != nil && accumulatedTopUpRewards != zero && big(accumulatedTopUpRewards) >= 0 && big(zero) == 0 && (forall s uint32 :: has(totalPowerInShard, s) ==> totalPowerInShard[s] != accumulatedTopUpRewards && totalPowerInShard[s] != zero)
+  invariant maps: perShardOK(nodesRewardInfo, totalPowerInShard) && perShardOK(nodesRewardInfo, topUpRewardPerShard)
+  invariant nodes: powersOK(nodesRewardInfo) && topUpsOK(nodesRewardInfo)
+  invariant provenance: topUpsFrom(nodesRewardInfo)
+
+loop 2
+  invariant index: -1 <= rangeindex && rangeindex < len(nodeInfoList)
+  invariant current: has(nodesRewardInfo, shardID) && nodeInfoList == nodesRewardInfo[shardID] && big(totalPowerInShard[shardID]) > 0
+  invariant acc: accumulatedTopUpRewards != nil && accumulatedTopUpRewards != zero && big(accumulatedTopUpRewards) >= 0 && big(zero) == 0 && (forall s uint32 :: has(totalPowerInShard, s) ==> totalPowerInShard[s] != accumulatedTopUpRewards && totalPowerInShard[s] != zero)
+  invariant maps: perShardOK(nodesRewardInfo, totalPowerInShard) && perShardOK(nodesRewardInfo, topUpRewardPerShard)
+  invariant nodes: powersOK(nodesRewardInfo) && topUpsOK(nodesRewardInfo)
+  invariant provenance: topUpsFrom(nodesRewardInfo)
+
+// lemma: a shard whose power is at most the total power gets at most the whole top-up amount
+lemma shard-share-at-most-total
+  vars q int, p int, t int, total int
+  hyp  0 <= p && p <= total && 0 < total && 0 <= t && isFloorDiv(q, p * t, total)
+  concl bounded: 0 <= q && q <= t
+
+func (n epochStart.NodesConfigProvider) ConsensusGroupSize(shardID uint32) (r int)
+  pure
+  ensures  positive: r > 0
+
+// reward per block per validator of shard s == floor(rewardPerBlock / consensusGroupSize(s)), for every shard and the metachain
+func (brc *baseRewardsCreator) fillBaseRewardsPerBlockPerNode(baseRewardsPerNode *big.Int)
+  requires collaborators: brc.shardCoordinator != nil && brc.nodesConfigProvider != nil && baseRewardsPerNode != nil && allocated(baseRewardsPerNode)
+  ensures  rate: forall s uint32 :: s < brc.shardCoordinator.NumberOfShards() || s == core.MetachainShardId ==> has(brc.mapBaseRewardsPerBlockPerValidator, s) && brc.mapBaseRewardsPerBlockPerValidator[s] != nil && allocated(brc.mapBaseRewardsPerBlockPerValidator[s]) && isFloorDiv(big(brc.mapBaseRewardsPerBlockPerValidator[s]), big(baseRewardsPerNode), brc.nodesConfigProvider.ConsensusGroupSize(s))
+  assigns  brc.mapBaseRewardsPerBlockPerValidator
+
+loop 1
+  invariant index: 0 <= i && i <= brc.shardCoordinator.NumberOfShards()
+  invariant fresh-map: fresh(brc.mapBaseRewardsPerBlockPerValidator) && big(baseRewardsPerNode) == old(big(baseRewardsPerNode))
+  invariant fresh-values: forall s uint32 :: has(brc.mapBaseRewardsPerBlockPerValidator, s) ==> fresh(brc.mapBaseRewardsPerBlockPerValidator[s])
+  invariant rate: forall s uint32 :: s < i ==> has(brc.mapBaseRewardsPerBlockPerValidator, s) && brc.mapBaseRewardsPerBlockPerValidator[s] != nil && isFloorDiv(big(brc.mapBaseRewardsPerBlockPerValidator[s]), big(baseRewardsPerNode), brc.nodesConfigProvider.ConsensusGroupSize(s))
+@*/
+
+// ---- computeRewardsPerNode: the helpers fit together (every call-pre proved), every node ends with a non-negative full reward ----
+/*@
+func (s epochStart.StakingDataProvider) GetTotalStakeEligibleNodes() (r *big.Int)
+  ensures  value: r != nil && allocated(r)
+  assigns  nothing
+func (s epochStart.StakingDataProvider) GetTotalTopUpStakeEligibleNodes() (r *big.Int)
+  ensures  value: r != nil && allocated(r)
+  assigns  nothing
+// ASSUMPTION about the economics (economics.go, float arithmetic, not under contract): the amount for blocks is not negative
+func (e epochStart.EpochEconomicsDataProvider) RewardsToBeDistributedForBlocks() (r *big.Int)
+  ensures  value: r != nil && allocated(r) && big(r) >= 0
+  assigns  nothing
+func (e epochStart.EpochEconomicsDataProvider) NumberOfBlocks() (r uint64)
+  pure
+
+// TRUSTED: every record is freshly allocated for exactly one shard list (this is what nodeShard() names); amounts start at 0
+func (rc *rewardsCreatorV2) initNodesRewardsInfo(validatorsInfo map[uint32][]*state.ValidatorInfo) (r map[uint32][]*nodeRewardsData)
+  trusted
+  requires validators: valsOK(validatorsInfo)
+  ensures  same-shards: forall s uint32 :: has(r, s) <==> has(validatorsInfo, s)
+  ensures  placed: nodesPlaced(r) && topUpsOK(r) && fresh(r) && feesOK(r)
+  assigns  nothing
+
+// ASSUMPTION on the validator statistics: every record carries non-negative accumulated fees
+spec fn valsOK(v map[uint32][]*state.ValidatorInfo) bool = forall s uint32, k int :: has(v, s) && 0 <= k && k < len(v[s]) ==> v[s][k] != nil && v[s][k].AccumulatedFees != nil && allocated(v[s][k].AccumulatedFees) && big(v[s][k].AccumulatedFees) >= 0
+spec fn feesOK(m map[uint32][]*nodeRewardsData) bool = forall s uint32, j int :: has(m, s) && 0 <= j && j < len(m[s]) ==> m[s][j].valInfo.AccumulatedFees != nil && allocated(m[s][j].valInfo.AccumulatedFees) && big(m[s][j].valInfo.AccumulatedFees) >= 0
+// any node record: only its TYPE matters, for `assigns allof(..)`
+spec fn anyNode() *nodeRewardsData
+
+// TRUSTED (big.Float, math.Atan): 2k/pi * atan(x/p) with k = factor * total. ASSUMPTION: the top-up factor is at most 1, so
+// the result lies between 0 and the amount to distribute.
+func (rc *rewardsCreatorV2) computeTopUpRewards(totalToDistribute *big.Int, totalTopUpEligible *big.Int) (r *big.Int)
+  trusted
+  requires collaborators: totalToDistribute != nil && totalTopUpEligible != nil
+  ensures  bounded: r != nil && fresh(r) && 0 <= big(r) && big(r) <= max(big(totalToDistribute), 0)
+  assigns  nothing
+
+spec fn nodeFull(rc *rewardsCreatorV2, n *nodeRewardsData) bool = n.fullRewards != nil && allocated(n.fullRewards) && n.baseReward != nil && n.topUpReward != nil && big(n.fullRewards) == big(n.baseReward) + big(n.topUpReward) && big(n.baseReward) == baseOf(rc, n) && big(n.baseReward) >= 0 && big(n.topUpReward) >= 0
+
+func (rc *rewardsCreatorV2) computeRewardsPerNode(validatorsInfo map[uint32][]*state.ValidatorInfo) (nodes map[uint32][]*nodeRewardsData, dust *big.Int)
+  requires collaborators: rc.baseRewardsCreator != nil && rc.stakingDataProvider != nil && rc.economicsDataProvider != nil && rc.baseRewardsCreator.shardCoordinator != nil && rc.baseRewardsCreator.nodesConfigProvider != nil
+  requires global-zero: zero != nil && big(zero) == 0 && allocated(zero)
+  requires valid-shards: forall s uint32 :: has(validatorsInfo, s) ==> s < rc.baseRewardsCreator.shardCoordinator.NumberOfShards() || s == core.MetachainShardId
+  requires validators: valsOK(validatorsInfo)
+  ensures  placed: nodesPlaced(nodes) && feesOK(nodes)
+  ensures  full-not-negative: forall s uint32, j int :: has(nodes, s) && 0 <= j && j < len(nodes[s]) ==> big(nodes[s][j].fullRewards) >= 0
+  assigns  rc.baseRewardsCreator.mapBaseRewardsPerBlockPerValidator, allof(anyNode().baseReward), allof(anyNode().topUpStake), allof(anyNode().powerInShard), allof(anyNode().topUpReward), allof(anyNode().fullRewards)
+  ensures  full-is-base-plus-top-up: forall s uint32, j int :: has(nodes, s) && 0 <= j && j < len(nodes[s]) ==> nodes[s][j].fullRewards != nil && allocated(nodes[s][j].fullRewards) && nodes[s][j].baseReward != nil && nodes[s][j].topUpReward != nil && big(nodes[s][j].fullRewards) == big(nodes[s][j].baseReward) + big(nodes[s][j].topUpReward)
+  ensures  base-formula: forall s uint32, j int :: has(nodes, s) && 0 <= j && j < len(nodes[s]) ==> big(nodes[s][j].baseReward) == baseOf(rc, nodes[s][j])
+  ensures  top-up-not-negative: forall s uint32, j int :: has(nodes, s) && 0 <= j && j < len(nodes[s]) ==> big(nodes[s][j].topUpReward) >= 0
+  ensures  rates-not-negative: forall s uint32 :: has(nodes, s) ==> big(rc.baseRewardsCreator.mapBaseRewardsPerBlockPerValidator[s]) >= 0
+  ensures  dust: dust != nil && fresh(dust)
+@*/
+
+// ---- top level ----
+/*@
+func (e epochStart.EpochEconomicsDataProvider) NumberOfBlocksPerShard() (r map[uint32]uint64)
+  assigns  nothing
+
+func (brc *baseRewardsCreator) initializeRewardsMiniBlocks() (r block.MiniBlockSlice)
+  requires collaborators: brc.shardCoordinator != nil && brc.shardCoordinator.NumberOfShards() < 4294967295
+  ensures  one-miniblock-per-shard: len(r) == brc.shardCoordinator.NumberOfShards() + 1 && (forall i :: 0 <= i && i < len(r) ==> r[i] != nil)
+  assigns  nothing
+
+loop 1
+  invariant index: 0 <= i && i <= brc.shardCoordinator.NumberOfShards() + 1 && len(miniBlocks) == brc.shardCoordinator.NumberOfShards() + 1 && fresh(miniBlocks)
+  invariant filled: forall k :: 0 <= k && k < i ==> miniBlocks[k] != nil && fresh(miniBlocks[k])
+
+func (brc *baseRewardsCreator) clean()
+  requires collaborators: brc.currTxs != nil
+  ensures  reset: brc.accumulatedRewards != nil && fresh(brc.accumulatedRewards) && big(brc.accumulatedRewards) == 0 && brc.protocolSustainabilityValue != nil && fresh(brc.protocolSustainabilityValue) && big(brc.protocolSustainabilityValue) == 0 && brc.accumulatedRewards != brc.protocolSustainabilityValue
+  assigns  brc.mapBaseRewardsPerBlockPerValidator, brc.accumulatedRewards, brc.protocolSustainabilityValue
+
+// TRUSTED (sort.Slice with a closure): sorts the hashes of every miniblock, returns the non-empty miniblocks
+func (brc *baseRewardsCreator) finalizeMiniBlocks(miniBlocks block.MiniBlockSlice) (r block.MiniBlockSlice)
+  trusted
+  assigns  allelems(miniBlocks[0].TxHashes)
+
+// The whole creation: every helper's precondition is established by what runs before it (call-pre obligations), under the
+// environment assumptions listed as requires. The published protocol reward is never negative.
+func (rc *rewardsCreatorV2) CreateRewardsMiniBlocks(metaBlock *block.MetaBlock, validatorsInfo map[uint32][]*state.ValidatorInfo, computedEconomics *block.Economics) (r block.MiniBlockSlice, err error)
+  requires collaborators: rc.baseRewardsCreator != nil && rc.stakingDataProvider != nil && rc.economicsDataProvider != nil && rc.baseRewardsCreator.shardCoordinator != nil && rc.baseRewardsCreator.nodesConfigProvider != nil && rc.baseRewardsCreator.currTxs != nil
+  requires owner: rwdOwner(rc.baseRewardsCreator.currTxs) == rc.baseRewardsCreator
+  requires global-zero: zero != nil && big(zero) == 0 && allocated(zero)
+  requires shard-count: rc.baseRewardsCreator.shardCoordinator.NumberOfShards() < 4294967295
+  requires protocol-address-in-a-shard: shardOfAddr(rc.baseRewardsCreator.shardCoordinator, str(rc.baseRewardsCreator.protocolSustainabilityAddress)) < rc.baseRewardsCreator.shardCoordinator.NumberOfShards()
+  requires economics: computedEconomics != nil ==> computedEconomics.RewardsForProtocolSustainability != nil && allocated(computedEconomics.RewardsForProtocolSustainability) && computedEconomics.RewardsForProtocolSustainability != zero
+  requires valid-shards: forall s uint32 :: has(validatorsInfo, s) ==> s < rc.baseRewardsCreator.shardCoordinator.NumberOfShards() || s == core.MetachainShardId
+  requires validators: valsOK(validatorsInfo)
+  ensures  protocol-reward-not-negative: err == nil ==> rc.baseRewardsCreator.protocolSustainabilityValue != nil && big(rc.baseRewardsCreator.protocolSustainabilityValue) >= 0
+@*/
